@@ -9,10 +9,14 @@ use simcore::run::RunResult;
 #[global_allocator]
 static ALLOC: simcore::alloc::SimAlloc = simcore::alloc::SimAlloc;
 
+#[path = "../../scen/bcj2.rs"]
+mod bcj2;
 #[path = "../../scen/codec.rs"]
 mod codec;
 #[path = "../../scen/common.rs"]
 mod common;
+#[path = "../../scen/interop.rs"]
+mod interop;
 #[path = "../../scen/io_faults.rs"]
 mod io_faults;
 #[path = "../../scen/optgen.rs"]
@@ -36,7 +40,7 @@ impl Engine for St {
     }
 
     fn properties(&self) -> Vec<&'static str> {
-        vec!["C01", "C02", "C05", "C07", "C12", "C13", "C16", "C18"]
+        vec!["C01", "C02", "C03", "C05", "C07", "C11", "C12", "C13", "C16", "C18"]
     }
 
     fn plan(&self, prop: &str, tier: &str) -> Vec<(String, u64)> {
@@ -46,6 +50,8 @@ impl Engine for St {
             "C05" => vec![p("io.trunc", 5000, 60000), p("io.read_err", 5000, 60000), p("io.read_benign", 15000, 500000), p("io.sink_err", 5000, 60000), p("io.sink_benign", 15000, 500000)],
             "C01" => vec![p("rt.codec", 40000, 1_500_000), p("rt.codec.bias", 10000, 400_000), p("rt.codec.big", 300, 8000)],
             "C02" => vec![p("rt.container", 40000, 1_500_000), p("rt.container.bias", 8000, 300_000), p("rt.container.big", 200, 6000)],
+            "C03" => vec![p("interop.ours_to_ref", 15000, 500_000), p("interop.ref_to_ours", 8000, 300_000)],
+            "C11" => vec![p("filter.inverse", 20000, 600_000), p("filter.ref", 12000, 400_000), p("bcj2.roundtrip", 6000, 200_000)],
             "C07" => vec![p("history.write", 12000, 300_000), p("history.read", 12000, 300_000)],
             "C12" => vec![p("concat.xz", 40000, 1_000_000), p("concat.lzip", 20000, 500_000)],
             "C13" => vec![p("determ.repeat", 12000, 400_000), p("determ.partition", 12000, 400_000)],
@@ -60,6 +66,8 @@ impl Engine for St {
         let mut c = match prop {
             "C05" => io_faults::gen(scen, k, seed, tier),
             "C01" | "C02" | "C07" | "C12" | "C13" | "C16" | "C18" => rt::gen(prop, scen, k, seed, tier),
+            "C11" if scen.starts_with("bcj2") => bcj2::gen(prop, scen, k, seed, tier),
+            "C03" | "C11" => interop::gen(prop, scen, k, seed, tier),
             _ => Case::default(),
         };
         c.prop = prop.to_string();
@@ -74,6 +82,8 @@ impl Engine for St {
         match case.scen.split('.').next().unwrap_or("") {
             "io" => io_faults::exec(case, keep_log),
             "rt" | "history" | "determ" | "exact" | "sizes" | "concat" => rt::exec(case, keep_log),
+            "interop" | "filter" => interop::exec(case, keep_log),
+            "bcj2" => bcj2::exec(case, keep_log),
             _ => RunResult::default(),
         }
     }
@@ -95,6 +105,18 @@ impl Engine for St {
                 rule: "one run = (format/framing, option vector drawn from the documented ranges, input class and length biased to dictionary/chunk boundaries, write history with flushes and empty writes, read buffer sizes, optional benign short/Interrupted policy on sink and source) -> encode through SimSink, decode through SimSource, compare. *.bias runs encode twice, once with the match finder positions starting k bytes below 2^31-1 (k within the input), and require identical compressed bytes. *.big runs use 0.1-6 MB inputs. Non-trivial: non-empty input (bias: renormalisation point inside the input). distinct = distinct event-log digests (I/O call trace, stream hash, decoded hash).".into(),
                 assumptions: vec!["in-range options only (out-of-range is C19)".into(), "position bias is semantically a prefix of data entirely outside the window".into()],
                 real, stubs, exhaustive_part: None,
+            },
+            "C03" => PropMeta {
+                level: "exploration",
+                rule: "one run = one (direction, format, options, input, chunking). ours_to_ref: encode with the crate's writer under a random write history, decode with liblzma fed in chunks of 1 / random / whole; ref_to_ours: encode with liblzma (preset or custom options, filter chain, FullFlush points), decode with the crate's reader (random buffer sizes, benign source). Runs whose option combination liblzma itself refuses are skipped and counted (metrics.skipped_reference_refused). Non-trivial: every executed run.".into(),
+                assumptions: vec!["liblzma 5.x static build is the reference; its own input restrictions define the supported feature set".into()],
+                real: real.clone(), stubs: stubs.clone(), exhaustive_part: None,
+            },
+            "C11" => PropMeta {
+                level: "exploration",
+                rule: "one run = (filter kind, start offset or distance, input class, length) -> filter.inverse / filter.ref / bcj2.roundtrip as described in the level text. Non-trivial: the filter changed at least one byte (bcj2: at least one branch converted).".into(),
+                assumptions: vec!["single write() per BCJWriter (split writes are C07's dimension, see KF-BCJWriter-split-writes)".into()],
+                real: real.clone(), stubs: stubs.clone(), exhaustive_part: None,
             },
             "C07" => PropMeta {
                 level: "exploration",
